@@ -445,6 +445,18 @@ def _analyse(fmt, tier, seed, which, res):
                 rr = str(s.check(assigned != win))
                 XC.sample(s, [assigned != win], rr, name)
                 if rr == "unsat":
+                    # ... and inside its window the value written does not come from *another* reaction's slot (a
+                    # slot that is only written inside that reaction's window): independent of every sentinel
+                    others = [x for x in run.kinit if x is not None]
+                    b0 = z3.substitute(kk, *[(x, z3.RealVal(0)) for x in others])
+                    b1 = z3.substitute(kk, *[(x, z3.RealVal(1)) for x in others])
+                    if str(s.check(z3.And(win, b0 != b1))) == "sat":
+                        m = s.model()
+                        tv = m.eval(T, model_completion=True)
+                        res["viol"].append({"key": f"window:{key}:reads-another-slot", "what": f"inside its window [{r['tmin']},{r['tmax']}) (at T={tv}) the rate coefficient of reaction {i} is copied from the slot of another reaction, which is only written inside that reaction's own window: {str(z3.simplify(kk))[:200]}",
+                                            "replay": {"format": fmt, "target": tdir, "reaction": r, "T": str(tv), "emitted": str(z3.simplify(kk))[:600], "replay_note": "k is zero-initialised by the callers: outside the other reaction's window the copied value is 0"}})
+                        continue
+                if rr == "unsat":
                     res["ok"] += 1
                     if len(res["samples"]) < 3:
                         res["samples"].append({"obligation": name, "query": "exists Tgas: (k[i] assigned) != (Tmin<=T<Tmax with non-positive bounds unbounded)", "verdict": "unsat"})
